@@ -5,7 +5,9 @@
   * `beartype/_decor/decormain.py`, `decorcache.py`   `beartype`        → `beartype`
       (under `python -O` the public decorator is the identity function)
   * `beartype/_decor/decorcore.py`                    `beartype_object` → `decorObject`
-      (`isinstance(obj, type)` → `beartype_type`, else `beartype_nontype`)
+      (`_beartype_object_fatal`: `isinstance(obj, type)` → `beartype_type`, else `beartype_nontype`;
+       `_beartype_object_nonfatal`, taken when `conf.warning_cls_on_decorator_exception` is set:
+       `try: fatal(obj) except Exception: issue_warning(…); return obj` → `guard`)
   * `beartype/_decor/_type/decortype.py`              `beartype_type`   → `decorClass` / `loop`
       (early return when the class is marked `is_beartyped`; iteration over a snapshot of
        `cls.__dict__.items()`; the `TYPES_BEARTYPEABLE` + nested-class test → `beartypeable`;
@@ -19,6 +21,13 @@
   * `beartype/_util/func/utilfuncmake.py`             `make_func` + `functools.update_wrapper`
       → `mkWrapper` (copies name, doc, annotations; `__wrapped__` := the wrapped function;
         `inspect.signature` follows `__wrapped__`, hence `sig` is copied)
+
+  Decoration can RAISE: code generation rejects some hints at decoration time (`NoReturn` on a
+  parameter, an unsupported hint, … → `Ann.failing`). Every function of the model returns a
+  `Res`: the resulting value, the state (allocation counter + number of warnings issued) and
+  whether an exception is propagating. An exception leaves a non-class object as it was (the
+  wrappers built so far for the accessors of a property are garbage) and leaves a class as far as
+  the loop got: members before the failing one replaced, the rest untouched, the class NOT marked.
 
   Objects carry an object id (`oid`); "the same object" is "the same oid". New objects
   (wrappers, rebuilt descriptors) take their oid from an allocation counter that is threaded
@@ -43,6 +52,7 @@ inductive Ann where
   | none        -- unannotated (`get_hintable_pep649749_annotations_or_none(func) is None`)
   | ignorable   -- annotated, but every hint is ignorable (`object`, `Any`): `generate_code` returns ''
   | checked     -- at least one hint that generates a check
+  | failing     -- at least one hint for which code generation RAISES at decoration time (`x: NoReturn`, …)
 deriving DecidableEq, Repr, Inhabited
 
 /-- Interpreter facts. -/
@@ -53,7 +63,29 @@ deriving DecidableEq, Repr, Inhabited
 /-- The part of `BeartypeConf` this decorator logic looks at. -/
 structure Conf where
   o0 : Bool                 -- `conf.strategy is BeartypeStrategy.O0`
+  warn : Bool               -- `conf.warning_cls_on_decorator_exception is not None` (every `beartype.claw` hook)
 deriving DecidableEq, Repr, Inhabited
+
+/-- What is threaded through a decoration: the first free object id and the number of warnings
+    issued so far (`issue_warning` in `_beartype_object_nonfatal`). -/
+structure St where
+  next : Nat
+  warns : Nat
+deriving DecidableEq, Repr, Inhabited
+
+/-- Outcome of a decorator call: the resulting object (for a class: the class as the call left it,
+    also when it raised), the state, and whether an exception is propagating out of the call. -/
+structure Res (α : Type) where
+  val : α
+  st : St
+  raised : Bool
+deriving Repr
+
+/-- `_beartype_object_nonfatal`: under a configuration with `warning_cls_on_decorator_exception`
+    an exception raised by the decoration of THIS object becomes one warning and the object
+    (`orig`) is returned; otherwise (`_beartype_object_fatal`) the outcome is passed on. -/
+def guard {α : Type} (conf : Conf) (orig : α) (r : Res α) : Res α :=
+  if r.raised && conf.warn then ⟨orig, ⟨r.st.next, r.st.warns + 1⟩, false⟩ else r
 
 /-- A pure-Python function object. -/
 inductive Func where
@@ -91,17 +123,22 @@ def mkWrapper (f : Func) (n : Nat) : Func :=
   .mk n f.name f.doc f.sig f.ann false true (some f)
 end Func
 
-/-- `beartype_func`: the decision for one function object. Returns the resulting object and the
-    next free oid. -/
-def decorFunc (env : Env) (conf : Conf) (f : Func) (n : Nat) : Func × Nat :=
+/-- `beartype_func`: the decision for one function object. -/
+def decorFunc (env : Env) (conf : Conf) (f : Func) (st : St) : Res Func :=
   let f1 := if conf.o0 then f.setNtc else f         -- `if conf.strategy is O0: no_type_check(func)`
-  if f1.unbeartypeable env then (f1, n)             -- `return func`
-  else if f1.ann == .ignorable then (f1, n)         -- `if not func_wrapper_code: return func`
-  else (f1.mkWrapper n, n + 1)
+  if f1.unbeartypeable env then ⟨f1, st, false⟩     -- `return func`
+  else if f1.ann == .ignorable then ⟨f1, st, false⟩ -- `if not func_wrapper_code: return func`
+  else if f1.ann == .failing then ⟨f1, st, true⟩    -- `generate_code` raises `BeartypeDecorHint…Exception`
+  else ⟨f1.mkWrapper st.next, ⟨st.next + 1, st.warns⟩, false⟩
 
-def decorFuncOpt (env : Env) (conf : Conf) : Option Func → Nat → Option Func × Nat
-  | none, n => (none, n)
-  | some f, n => let r := decorFunc env conf f n; (some r.1, r.2)
+def decorFuncOpt (env : Env) (conf : Conf) : Option Func → St → Res (Option Func)
+  | none, st => ⟨none, st, false⟩
+  | some f, st => let r := decorFunc env conf f st; ⟨some r.val, r.st, r.raised⟩
+
+/-- `beartype_object(func, conf=conf)` on a function object: `beartype_func` under the guard. This is
+    what `beartype_descriptor_decorator_builtin_class_or_static_method` applies to the wrappee. -/
+def decorFuncObj (env : Env) (conf : Conf) (f : Func) (st : St) : Res Func :=
+  guard conf f (decorFunc env conf f st)
 
 mutual
 /-- An attribute value of a class dictionary. -/
@@ -173,81 +210,114 @@ def beartypeable (qual : List String) : Member → Bool
   | .other _ => false
 
 /-- `beartype_nontype` for the builtin descriptors and plain functions (everything but classes).
-    A descriptor is ALWAYS rebuilt (new oid) around the decorated function(s). -/
-def decorLeaf (env : Env) (conf : Conf) : Member → Nat → Member × Nat
-  | .func f, n => let r := decorFunc env conf f n; (.func r.1, r.2)
-  | .cmeth _ f, n => let r := decorFunc env conf f n; (.cmeth r.2 r.1, r.2 + 1)
-  | .smeth _ f, n => let r := decorFunc env conf f n; (.smeth r.2 r.1, r.2 + 1)
-  | .prop _ doc g s d, n =>
-      let rg := decorFunc env conf g n
-      let rs := decorFuncOpt env conf s rg.2
-      let rd := decorFuncOpt env conf d rs.2
-      (.prop rd.2 doc rg.1 rs.1 rd.1, rd.2 + 1)
-  | m, n => (m, n)
+    A descriptor is ALWAYS rebuilt (new oid) around the decorated function(s) — unless the
+    decoration of a function inside raises: then the exception propagates and the object is left
+    as it was (a property is all-or-nothing: `beartype_func` on getter, setter, deleter in turn,
+    `property(…)` only after all three; the wrappee of a classmethod / staticmethod goes through
+    `beartype_object`, hence through the guard). -/
+def decorLeaf (env : Env) (conf : Conf) : Member → St → Res Member
+  | .func f, st =>
+      let r := decorFunc env conf f st
+      if r.raised then ⟨.func f, st, true⟩ else ⟨.func r.val, r.st, false⟩
+  | .cmeth o f, st =>
+      let r := decorFuncObj env conf f st
+      if r.raised then ⟨.cmeth o f, st, true⟩ else ⟨.cmeth r.st.next r.val, ⟨r.st.next + 1, r.st.warns⟩, false⟩
+  | .smeth o f, st =>
+      let r := decorFuncObj env conf f st
+      if r.raised then ⟨.smeth o f, st, true⟩ else ⟨.smeth r.st.next r.val, ⟨r.st.next + 1, r.st.warns⟩, false⟩
+  | .prop o doc g s d, st =>
+      let rg := decorFunc env conf g st
+      if rg.raised then ⟨.prop o doc g s d, st, true⟩ else
+      let rs := decorFuncOpt env conf s rg.st
+      if rs.raised then ⟨.prop o doc g s d, st, true⟩ else
+      let rd := decorFuncOpt env conf d rs.st
+      if rd.raised then ⟨.prop o doc g s d, st, true⟩ else
+      ⟨.prop rd.st.next doc rg.val rs.val rd.val, ⟨rd.st.next + 1, rd.st.warns⟩, false⟩
+  | m, st => ⟨m, st, false⟩
+
+/-- `beartype_object(obj, conf=conf)` on a non-class object = `beartype(conf=conf)(obj)` applied BY
+    HAND to a function, classmethod, staticmethod or property: `beartype_nontype` under the guard. -/
+def decorLeafObj (env : Env) (conf : Conf) (m : Member) (st : St) : Res Member :=
+  guard conf m (decorLeaf env conf m st)
 
 mutual
-/-- `beartype_type(cls, conf, cls_stack)`. -/
-def decorClass (env : Env) (conf : Conf) : Klass → Nat → Klass × Nat
-  | .mk oid qual bt dict inh, n =>
-    if bt then (.mk oid qual bt dict inh, n)                 -- already decorated: `return cls`
+/-- `beartype_type(cls, conf, cls_stack)`. When the loop raises, the class is left as the loop left
+    it and is NOT marked (the exception propagates past `set_type_attr_cached(cls, 'is_beartyped', True)`). -/
+def decorClass (env : Env) (conf : Conf) : Klass → St → Res Klass
+  | .mk oid qual bt dict inh, st =>
+    if bt then ⟨.mk oid qual bt dict inh, st, false⟩         -- already decorated: `return cls`
     else
-      let r := loop env conf qual dict dict n                -- `for name, value in cls.__dict__.items()`
-      (.mk oid qual true r.1 inh, r.2)                       -- mark, `return cls`
-/-- the loop body over the remaining `items`, `dict` being the current class dictionary -/
-def loop (env : Env) (conf : Conf) (qual : List String) : Members → Members → Nat → Members × Nat
-  | .nil, dict, n => (dict, n)
-  | .cons nm m rest, dict, n =>
+      let r := loop env conf qual dict dict st               -- `for name, value in cls.__dict__.items()`
+      ⟨.mk oid qual (!r.raised) r.val inh, r.st, r.raised⟩   -- mark, `return cls` (not reached on a raise)
+/-- the loop body over the remaining `items`, `dict` being the current class dictionary; an
+    exception out of `beartype_object` ends the loop (a nested class that raised was mutated in
+    place: the by-value dictionary gets it written back) -/
+def loop (env : Env) (conf : Conf) (qual : List String) : Members → Members → St → Res Members
+  | .nil, dict, st => ⟨dict, st, false⟩
+  | .cons nm m rest, dict, st =>
     if beartypeable qual m then
-      let r := decorObject env conf m n
-      loop env conf qual rest (dict.setAttr nm r.1) r.2
-    else loop env conf qual rest dict n
+      let r := decorObject env conf m st
+      if r.raised then ⟨dict.setAttr nm r.val, r.st, true⟩
+      else loop env conf qual rest (dict.setAttr nm r.val) r.st
+    else loop env conf qual rest dict st
 /-- `beartype_object(obj, conf, cls_stack=…)`: classes go to `beartype_type`, the rest to
-    `beartype_nontype`. -/
-def decorObject (env : Env) (conf : Conf) : Member → Nat → Member × Nat
-  | .klass k, n => let r := decorClass env conf k n; (.klass r.1, r.2)
-  | .func f, n => decorLeaf env conf (.func f) n
-  | .cmeth o f, n => decorLeaf env conf (.cmeth o f) n
-  | .smeth o f, n => decorLeaf env conf (.smeth o f) n
-  | .prop o doc g s d, n => decorLeaf env conf (.prop o doc g s d) n
-  | .other o, n => (.other o, n)
+    `beartype_nontype`; both under the guard (`_beartype_object_nonfatal`), which returns `obj` —
+    for a class the object mutated so far. -/
+def decorObject (env : Env) (conf : Conf) : Member → St → Res Member
+  | .klass k, st =>
+    let r := decorClass env conf k st
+    guard conf (.klass r.val) ⟨.klass r.val, r.st, r.raised⟩
+  | .func f, st => decorLeafObj env conf (.func f) st
+  | .cmeth o f, st => decorLeafObj env conf (.cmeth o f) st
+  | .smeth o f, st => decorLeafObj env conf (.smeth o f) st
+  | .prop o doc g s d, st => decorLeafObj env conf (.prop o doc g s d) st
+  | .other o, st => ⟨.other o, st, false⟩
 end
 
 /-- The public decorator `beartype(conf=conf)(obj)`: the identity under `python -O`
     (`decormain.py`), `beartype_object` otherwise. -/
-def beartype (env : Env) (conf : Conf) (m : Member) (n : Nat) : Member × Nat :=
-  if env.optimized then (m, n) else decorObject env conf m n
+def beartype (env : Env) (conf : Conf) (m : Member) (st : St) : Res Member :=
+  if env.optimized then ⟨m, st, false⟩ else decorObject env conf m st
 
-def beartypeClass (env : Env) (conf : Conf) (k : Klass) (n : Nat) : Klass × Nat :=
-  if env.optimized then (k, n) else decorClass env conf k n
+/-- `beartype(conf=conf)(cls)` -/
+def beartypeClass (env : Env) (conf : Conf) (k : Klass) (st : St) : Res Klass :=
+  if env.optimized then ⟨k, st, false⟩ else guard conf (decorClass env conf k st).val (decorClass env conf k st)
 
 /-! ### Specification: what the property statement says -/
 
 mutual
 /-- Decorating a class: the same class object, marked, in which every member the class itself
-    defines has been decorated; an already decorated class is returned unchanged. -/
-def specClass (env : Env) (conf : Conf) : Klass → Nat → Klass × Nat
-  | .mk oid qual bt dict inh, n =>
-    if bt then (.mk oid qual bt dict inh, n)
+    defines has been decorated; an already decorated class is returned unchanged. When the
+    decoration of a member raises, the members after it are not touched and the class is not marked. -/
+def specClass (env : Env) (conf : Conf) : Klass → St → Res Klass
+  | .mk oid qual bt dict inh, st =>
+    if bt then ⟨.mk oid qual bt dict inh, st, false⟩
     else
-      let r := specMembers env conf qual dict n
-      (.mk oid qual true r.1 inh, r.2)
-/-- member by member, in dictionary order -/
-def specMembers (env : Env) (conf : Conf) (qual : List String) : Members → Nat → Members × Nat
-  | .nil, n => (.nil, n)
-  | .cons nm m rest, n =>
-    let r := specMember env conf qual m n
-    let rr := specMembers env conf qual rest r.2
-    (.cons nm r.1 rr.1, rr.2)
-/-- functions, classmethods, staticmethods, properties: decorated as if by hand; classes nested in
+      let r := specMembers env conf qual dict st
+      ⟨.mk oid qual (!r.raised) r.val inh, r.st, r.raised⟩
+/-- member by member, in dictionary order, as a person decorating them one after the other would:
+    the first member whose decoration raises ends it -/
+def specMembers (env : Env) (conf : Conf) (qual : List String) : Members → St → Res Members
+  | .nil, st => ⟨.nil, st, false⟩
+  | .cons nm m rest, st =>
+    let r := specMember env conf qual m st
+    if r.raised then ⟨.cons nm r.val rest, r.st, true⟩
+    else
+      let rr := specMembers env conf qual rest r.st
+      ⟨.cons nm r.val rr.val, rr.st, rr.raised⟩
+/-- functions, classmethods, staticmethods, properties: decorated as if by hand
+    (`beartype(conf=conf)(member)`, hence under the guard of that configuration); classes nested in
     the decorated class: recursively; referenced classes and everything else: untouched -/
-def specMember (env : Env) (conf : Conf) (qual : List String) : Member → Nat → Member × Nat
-  | .klass k, n =>
-    if nestedIn qual k.qual then (let r := specClass env conf k n; (.klass r.1, r.2)) else (.klass k, n)
-  | .func f, n => decorLeaf env conf (.func f) n
-  | .cmeth o f, n => decorLeaf env conf (.cmeth o f) n
-  | .smeth o f, n => decorLeaf env conf (.smeth o f) n
-  | .prop o doc g s d, n => decorLeaf env conf (.prop o doc g s d) n
-  | .other o, n => (.other o, n)
+def specMember (env : Env) (conf : Conf) (qual : List String) : Member → St → Res Member
+  | .klass k, st =>
+    if nestedIn qual k.qual then
+      (let r := specClass env conf k st; guard conf (.klass r.val) ⟨.klass r.val, r.st, r.raised⟩)
+    else ⟨.klass k, st, false⟩
+  | .func f, st => decorLeafObj env conf (.func f) st
+  | .cmeth o f, st => decorLeafObj env conf (.cmeth o f) st
+  | .smeth o f, st => decorLeafObj env conf (.smeth o f) st
+  | .prop o doc g s d, st => decorLeafObj env conf (.prop o doc g s d) st
+  | .other o, st => ⟨.other o, st, false⟩
 end
 
 /-! ### Observables used by the theorems -/
@@ -317,7 +387,25 @@ def Member.core : Member → Member
 
 /-- Is decoration of this function a documented no-op? -/
 def Func.noop (env : Env) (conf : Conf) (f : Func) : Bool :=
-  env.optimized || conf.o0 || f.ann != .checked || f.ntc || f.marker
+  env.optimized || conf.o0 || f.ann == .none || f.ann == .ignorable || f.ntc || f.marker
+
+/-- Does the decoration of this function raise? (a hint rejected at decoration time, reached:
+    not `-O`, not strategy O0, not `@no_type_check`, not already a wrapper) -/
+def Func.fails (env : Env) (conf : Conf) (f : Func) : Bool :=
+  !env.optimized && !conf.o0 && f.ann == .failing && !f.ntc && !f.marker
+
+def Func.failsOpt (env : Env) (conf : Conf) : Option Func → Bool
+  | none => false
+  | some f => f.fails env conf
+
+/-- Does `beartype_nontype` raise on this non-class member? A classmethod / staticmethod raises
+    only when nothing guards its wrappee. -/
+def Member.failsLeaf (env : Env) (conf : Conf) : Member → Bool
+  | .func f => f.fails env conf
+  | .cmeth _ f => f.fails env conf && !conf.warn
+  | .smeth _ f => f.fails env conf && !conf.warn
+  | .prop _ _ g s d => g.fails env conf || Func.failsOpt env conf s || Func.failsOpt env conf d
+  | _ => false
 
 def Func.noopOpt (env : Env) (conf : Conf) : Option Func → Bool
   | none => true
